@@ -14,6 +14,7 @@ from vp import gen, probe, refmodels as rm
 from vp import defaults
 from vp import reuse
 from vp import forms as argforms
+from vp import corners
 
 RULE = ('seeded generator: arrays and cubes 1..14 per side (even/odd/non-square), target shapes mixing growing and '
         'shrinking axes, shape parameters (real radii/sizes), integer and real shifts, rotations, hex apertures '
@@ -21,7 +22,7 @@ RULE = ('seeded generator: arrays and cubes 1..14 per side (even/odd/non-square)
         'descriptors; non-trivial = more than one sample.')
 ASSUMPTIONS = ['binary-shape comparisons skip pixels whose exactly computed edge margin is < 1e-9 (ties are not evidence)']
 PLAN = {'quick': {'gen': 8}, 'thorough': {'gen': 16, 'tests': 1, 'docs': 1}}
-REQUIRED_BUCKETS = ['defaults', 'reuse', 'forms', 'pad:2d', 'pad:cube', 'pad:nonsquare-cube', 'pad:grow', 'pad:shrink', 'pad:mixed',
+REQUIRED_BUCKETS = ['defaults', 'corners', 'reuse', 'forms', 'pad:2d', 'pad:cube', 'pad:nonsquare-cube', 'pad:grow', 'pad:shrink', 'pad:mixed',
                     'pad:parity-change', 'subarray', 'window', 'boundary', 'boundary:signed-frame', 'slice_offset', 'slice_offset:open-ended', 'centroid', 'rebin',
                     'rebin:cube', 'rebin:small-int', 'mesh', 'shape:circle', 'shape:hexagon', 'shape:rectangle', 'shape:spider', 'shape:sequence', 'shape:binary',
                     'shape:antialias', 'hexseg', 'hexseg:gap0', 'hexseg:drop', 'hexseg:drop-repeated', 'rescale:origin', 'dtype:reduced-precision']
@@ -221,6 +222,7 @@ def workload(ctx, lentil):
     defaults.run(ctx, lentil, 'C20', 'pad=index')
     reuse.run(ctx, lentil, 'C20', 'pad=index')
     argforms.run(ctx, lentil, 'C20', 'pad=index')
+    corners.run(ctx, lentil, 'C20', 'pad=index')
     rng = ctx.rng
     U, H = lentil.util, lentil.helper
     n = ctx.count(160, 1200)
